@@ -97,7 +97,19 @@ pub fn run(r: &mut StdRng, shape: &Value) -> (Value, String) {
     let relay_strs = g::distinct_relays(r, nrel);
     let relays: Vec<RelayUrl> = relay_strs.iter().map(|u| RelayUrl::parse(u).unwrap()).collect();
     let protected = s(shape, "extra") == "protected";
-    let (content, tags0, _hash_ref) = mdk.create_key_package_for_event_with_options(&pk, relays, protected).expect("create key package");
+    let (content, tags0, _hash_ref) = mdk.create_key_package_for_event_with_options(&pk, relays.clone(), protected).expect("create key package");
+    // what the library serialised must carry exactly the relays it was given, the protection marker iff asked for,
+    // and the encoding tag
+    let made_relays: std::collections::BTreeSet<RelayUrl> = tags0
+        .iter()
+        .filter(|t| t.as_slice()[0] == "relays")
+        .flat_map(|t| t.as_slice()[1..].to_vec())
+        .filter_map(|u| RelayUrl::parse(&u).ok())
+        .collect();
+    let tags_faithful = made_relays == relays.iter().cloned().collect()
+        && tags0.iter().filter(|t| t.as_slice()[0] == "relays").count() == 1
+        && tags0.iter().any(|t| t.as_slice()[0] == "-") == protected
+        && tags0.iter().any(|t| t.as_slice() == ["encoding".to_string(), "base64".to_string()]);
     let mut tags: Vec<TagV> = tags0.iter().map(|t| t.as_slice().to_vec()).collect();
     let i_val = tags.iter().find(|t| t[0] == "i").unwrap()[1].clone();
     let raw = B64.decode(&content).unwrap();
@@ -221,7 +233,7 @@ pub fn run(r: &mut StdRng, shape: &Value) -> (Value, String) {
         Ok(kp) => {
             let href = kp.hash_ref(mdk.provider.crypto()).map(|h| hex::encode(h.as_slice())).unwrap_or_default();
             let ident = BasicCredential::try_from(kp.leaf_node().credential().clone()).ok().map(|c| c.identity().to_vec()).unwrap_or_default();
-            let equal = href == i_val && ident == pk.to_bytes().to_vec();
+            let equal = href == i_val && ident == pk.to_bytes().to_vec() && tags_faithful;
             (json!({"res":"accept","equal":equal,"err":""}), detail)
         }
     }
